@@ -171,6 +171,8 @@ func RunConc(w *tr.Writer, st *ConcStats, tid int, r *rand.Rand, withMissing boo
 					case "changes":
 						root, changes, _, _ := t.GetChanges()
 						_ = t.GetChangeCount()
+						_ = t.GetDeletes() // the other half of the change set (race detection only)
+						_ = t.GetRoot()
 						if rr.Intn(2) == 0 {
 							time.Sleep(time.Duration(rr.Intn(80)) * time.Microsecond)
 						}
